@@ -569,6 +569,7 @@ func (s *Server) handleRequest(req *dhcpv4.DHCPv4) (*dhcpv4.DHCPv4, error) {
 	s.leasesMu.RLock()
 	existingLease := s.leases[mac.String()]
 	s.leasesMu.RUnlock()
+	tableLease := existingLease
 
 	if existingLease == nil && isRelayed {
 		opt82 := parseOption82(req)
@@ -706,6 +707,14 @@ func (s *Server) handleRequest(req *dhcpv4.DHCPv4) (*dhcpv4.DHCPv4, error) {
 	s.verifRequestPreWrite()
 
 	s.leasesMu.Lock()
+	if s.leases[mac.String()] != tableLease {
+		// Another packet of this client (a second copy of this REQUEST, a RELEASE, a
+		// DECLINE) or the expiry sweep has replaced or removed the lease that was read
+		// above: everything decided since then is stale. Handle the packet again
+		// against the current table instead of overwriting it.
+		s.leasesMu.Unlock()
+		return s.handleRequest(req)
+	}
 	s.leases[mac.String()] = lease
 	s.leasesMu.Unlock()
 
